@@ -108,10 +108,13 @@ package services
 //@   requires s != nil && s.client != nil && req != nil && tables_wf()
 
 //@ func (*subscriberServer).Seek(s, ctx, req) (resp, err)
-//@   property C16
+//@   property C16 C13 C02
 //@   uses tables notifyspec
 //@   nopanic
 //@   requires s != nil && s.client != nil && req != nil && tables_wf()
+//@   ensures only_this_subscription: [C13 C02] forall d Id :: {deliveries.completed_at$null(d)} old(deliveries.exists(d)) &&
+//@             !(live_sub(old(deliveries.subscription_id(d))) && subscriptions.name(old(deliveries.subscription_id(d))) == req.Subscription) ==> delivery_unchanged(d)
+//@   ensures nothing_created_or_removed: [C13] forall d Id :: {deliveries.exists(d)} deliveries.exists(d) == old(deliveries.exists(d))
 //@   ensures error_leaves_state: [C16 C09] err != nil ==> state_unchanged()
 
 //@ func (*subscriberServer).ModifyPushConfig(s, ctx, req) (resp, err)
